@@ -268,7 +268,7 @@ func runC12(c *Ctx) {
 		return out
 	}
 	o3 := mkOpts(map[string]*Node{"uint": refcbor.NInt(50), "tstr": refcbor.NTstr("a/b")})
-	o258 := mkOpts(map[string]*Node{"sha256": refcbor.NInt(-16), "sha384": refcbor.NInt(-43), "unknown": refcbor.NInt(99), "tstr": refcbor.NTstr("SHA-256"), "bstr": refcbor.NBstr([]byte{1}), "null": refcbor.NNull()})
+	o258 := mkOpts(map[string]*Node{"sha256": refcbor.NInt(-16), "sha384": refcbor.NInt(-43), "unknown": refcbor.NInt(99), "shake128": refcbor.NInt(-18), "shake256": refcbor.NInt(-45), "sha1": refcbor.NInt(-14), "sha512/256": refcbor.NInt(-17), "tstr": refcbor.NTstr("SHA-256"), "bstr": refcbor.NBstr([]byte{1}), "null": refcbor.NNull()})
 	o259 := mkOpts(map[string]*Node{"uint": refcbor.NInt(50), "tstr": refcbor.NTstr("text/plain"), "tstr-empty": refcbor.NTstr(""), "nint": refcbor.NInt(-1), "bstr": refcbor.NBstr([]byte{1}), "null": refcbor.NNull()})
 	o260 := mkOpts(map[string]*Node{"tstr": refcbor.NTstr("loc"), "tstr-empty": refcbor.NTstr(""), "int": refcbor.NInt(1), "bstr": refcbor.NBstr([]byte("loc")), "null": refcbor.NNull(), "array": refcbor.NArr(refcbor.NTstr("loc"))})
 	type vcase struct {
